@@ -114,6 +114,9 @@ func (cli *Client) Start() error {
 		p, err := netpoll.OpenPoller()
 		if err != nil {
 			cli.eng.closeEventLoops()
+			// The pollers are gone: mark the client as shut down, so that a later
+			// Stop does not notify and release them a second time.
+			cli.eng.inShutdown.Store(true)
 			return err
 		}
 		el := eventloop{
